@@ -59,6 +59,12 @@ def c16_grammars(ctx):
         gs.append(('lit%d' % part, dict(terms=terms, nonterms=[dict(name='e', tag='v1')], precs=[('left', [0])], rules=rules, start=0)))
     for i in range(3 if ctx.quick else 12):
         gs.append(('long%d' % i, genrun.fix_tags(gram.long_rule_grammar(rnd))))      # rules with 10-13 symbols: $10 .. $13 next to $1
+    # the line feed as a character literal (a quote, a real line break, a quote - the only way to write it), used in a rule
+    lf = gram.from_text('lines: line | lines line ; line: x N | x + x N')
+    for t in lf['terms']:
+        if t['name'] == 'N':
+            t['lit'], t['name'] = '\n', 'lf'
+    gs.append(('lf_literal', genrun.fix_tags(lf)))
     n = 40 if ctx.quick else 300
     for i in range(n):
         kind = i % 4
@@ -312,7 +318,7 @@ def run_C17(ctx):
         if not d or not d.get('ok'):
             continue
         have = set(s['name'] for s in d['symbols'])
-        want = [gram.internal_name(g, ('t', i)) for i in range(len(g['terms']))] + [gram.internal_name(g, ('n', j)) for j in range(len(g['nonterms']))]
+        want = [gram.internal_name(g, ('t', i)) for i, t in enumerate(g['terms']) if not t.get('hidden')] + [gram.internal_name(g, ('n', j)) for j in range(len(g['nonterms']))]
         missing = [n for n in want if n not in have]
         ctx.evaluations += 1
         if missing:
@@ -711,7 +717,7 @@ def run_C18(ctx):
         if not props.had_counterexample(ctx):
             ed = [dict(interface=itf, what='grammar %s: %s' % (nm, what), case=dict(grammar=nm, grammar_text=texts[[g[0] for g in gs].index(nm)], interface=itf, detail=what))
                   for (nm, itf, what) in backend.e2e_diffs([g[0] for g in gs], paths, dumps)]
-            props.report_corr(ctx, ed, {'I1', 'I2', 'I3', 'I4'}, 'C18')
+            props.report_corr(ctx, ed, {'I1', 'I2', 'I3', 'I4', 'I5', 'I5n'}, 'C18')
     finally:
         shutil.rmtree(work, ignore_errors=True)
 
